@@ -264,9 +264,16 @@ def pad(rng: random.Random, prof: Profile, default="  ") -> str:
     return default
 
 
-GARBAGE = ["garbage", "0 = S 64 10", "0 = N 8 0", "0 = E two words", "0 = X 1", "= N 0 0", "0 N 0 0", "0 = N 0", "{x", "x}",
-           "0 = B", "0 = TS", "0 = A x", "  ", "", "0 = E", "0 = S 2", "0 = S 0 5", "0 = N 10 0", "0 = B 12a", "-1 = N 0 0",
-           "0 = n 0 0", "0  = N 0 0", "0 = N  0 0", "0 = E \"unterminated", "0 = E \"a\"b\"", "Resolution = x", "0 = S 2 5 5"]
+# unparsable lines per section kind — decided from the documented line formats (never by the code under test):
+# nothing here is a canonical line of the section it is inserted into
+GARBAGE_COMMON = ["garbage", "0 = X 1", "= N 0 0", "0 N 0 0", "{x", "x}", "  ", "", "0 = E", "0 = n 0 0", "-1 = N 0 0", "Resolution = x",
+                  "0 = E two words", "0 = B", "0 = TS", "0 = A x", "0 = N 0", "0 = S 2", "0 = B 12a", "0  = N 0 0", "0 = N  0 0"]
+GARBAGE = {
+    "instrument": GARBAGE_COMMON + ["0 = S 64 10", "0 = N 8 0", "0 = S 0 5", "0 = N 10 0", "0 = S 2 5 5", "0 = B 120000", "0 = TS 4", "0 = A 5",
+                                    "0 = E \"lyric a b\""],
+    "sync": GARBAGE_COMMON + ["0 = N 0 0", "0 = S 2 5", "0 = E solo", "0 = E \"x\"", "0 = TS 4 4 4", "0 = B 1 2"],
+    "events": GARBAGE_COMMON + ["0 = N 0 0", "0 = S 2 5", "0 = E solo", "0 = B 120000", "0 = E \"unterminated", "0 = E \"a\"b\"", "0 = E x\"y\""],
+}
 
 
 class Rendered:
@@ -392,9 +399,10 @@ def render(src: ChartSrc, rng: random.Random, prof: Profile | None = None, *, or
                 continue
             cnt = 0
             while rng.random() < prof.garbage:
-                g = rng.choice(GARBAGE)
                 if tag == "Song":
                     g = rng.choice(["garbage", "Foo = 1", "resolution = 1", "Name: x", "", "  ", "= 5"])
+                else:
+                    g = rng.choice(GARBAGE["sync" if tag == "SyncTrack" else "events" if tag == "Events" else "instrument"])
                 body.insert(rng.randint(0, len(body)), g)
                 cnt += 1
             if cnt:
